@@ -87,6 +87,7 @@ def check(tier, seed):
     with C.WorkDir('C20') as wd:
         C.audit_sources()
         C.props_obligations(res, 'C20', wd)
+        C.tie_b_gpsd(res, wd)
         a0_ = list(res.assumption_lines)
         C.props_obligations(res, 'C20b', wd)
         res.assumption_lines = a0_ + res.assumption_lines
